@@ -192,7 +192,8 @@ class Lex(Family):
             'line-separator characters, JSON and diff lines); DiffX-shaped documents (1-5 valid or near-miss headers '
             'with options, bodies of JSON / diff / delta / example / "#." lines, missing final newline); UTF-8 writer '
             'outputs of random well-ordered call sequences whose contents contain no "#.", and of contents that are n '
-            'copies of a 1/2/3/4-byte character (every n up to a bound) before every kind of next section; '
+            'copies of a 1/2/3/4-byte character (every n up to a bound) before every kind of next section; every header '
+            'rule x option key x hostile value (NUL, lone surrogates, separators, ...); '
             'sub-lexer results are recorded from the implementation run; non-trivial = some token other than '
             'Token.Text is produced; distinct by the text')
 
